@@ -40,8 +40,9 @@ def real_key(text):
     return "%#.15g" % float(text)
 
 
-def lex(text):
-    """tokens: ('id',name) ('int',n) ('real',key) ('str',raw) ('estr',s) ('bin',s) ('kw',K) ('op',name) ('sym',s) ('skw',K)"""
+def lex(text, spans=None):
+    """tokens: ('id',name) ('int',n) ('real',key) ('str',raw) ('estr',s) ('bin',s) ('kw',K) ('op',name) ('sym',s) ('skw',K);
+    with `spans` (a list) the (start, end) offsets of the tokens are appended to it"""
     out, i = [], 0
     while i < len(text):
         m = TOKEN_RE.match(text, i)
@@ -52,6 +53,8 @@ def lex(text):
         v = m.group(k)
         if k in ("ws", "rem", "tail"):
             continue
+        if spans is not None:
+            spans.append((m.start(), m.end()))
         if k == "str":
             out.append(("str", v[1:-1]))
         elif k == "estr":
